@@ -1373,6 +1373,8 @@ def walk(
         stack = asts[:] if back else asts[::-1]
 
     else:
+        skip_children = False
+
         if self_ and on != 'leave':  # leave does its own setup
             if check_all_param(self):
                 item = self if on == 'enter' else (self, False)
@@ -1382,7 +1384,10 @@ def walk(
                     recurse_ = sent
 
                 if not recurse_:
-                    return
+                    if on == 'enter':
+                        return
+
+                    skip_children = True  # on='both', self was entered so it is still left, like any other node after `send(False)`
 
                 if not (ast := self.a):  # if deleted this node then we are done
                     return
@@ -1398,7 +1403,10 @@ def walk(
         else:
             stack = None  # scope_ctx not created because not needed in this case
 
-        if stack is None:  # nothing excluded so just add all children
+        if skip_children:
+            stack = []
+
+        elif stack is None:  # nothing excluded so just add all children
             stack = syntax_ordered_children(ast)
 
             if not back:
